@@ -14,13 +14,21 @@ EXTRA_PENDING = {  # evaluated but meta not yet written
     'C07': ['CTLS.modelcheck keeps the parser in a module-level variable: a parser= passed once becomes the default of later text calls'],
     'C15': ['CTL E(U) fairness rewriting leaves the second operand un-rewritten (nested quantifiers under it are checked without fairness)'],
 }
-EXTRA_PENDING = {k: v for k, v in EXTRA_PENDING.items() if not any(os.path.exists('/verif/seeded/%s/meta.json' % d) for d in ('C01c-lru-cache-atoms',) if k == 'C01')}
+if os.path.exists('/verif/seeded/C01c-lru-cache-atoms/meta.json'):
+    EXTRA_PENDING = {}
+for name, pid, wt, checks, needs, summary in json.load(open('/verif/tools/round4.json')):
+    if not os.path.exists('/verif/seeded/%s/meta.json' % name):
+        EXTRA_PENDING.setdefault(pid, []).append(summary)
 DIRECTIONS = ("Favour one of these directions, which are easy to overlook: (i) rarely used but public entry points and argument forms; "
               "(ii) unusual but legitimate Python values (states / graph nodes / labels that are strings, tuples, frozensets, ints mixed with strings, objects; "
               "empty collections; single-element inputs; very long or deeply nested inputs); (iii) aliasing between objects the caller passes in or gets back, "
               "or between two results; (iv) state that survives across calls (module- or class-level caches, mutable default arguments, objects reused by a second call); "
               "(v) two cooperating edits in different files that each look harmless; (vi) error paths: which exception is raised, when, and what has been modified before it is raised; "
-              "(vii) behaviour that depends on set/dict iteration order or on the hash seed; (viii) a helper shared by several features, changed so that only ONE of its callers misbehaves.")
+              "(vii) behaviour that depends on set/dict iteration order or on the hash seed; (viii) a helper shared by several features, changed so that only ONE of its callers misbehaves; "
+              "(ix) Python semantics traps: an iterable consumed twice, `is` vs `==`, True == 1 and hash(True) == hash(1), a string being an iterable of characters, "
+              "dict views comparing as sets, __eq__ without matching __hash__, shallow vs deep copies, default arguments evaluated once; "
+              "(x) boundaries the documentation allows: no initial states, a single state, an empty fairness list, a formula that is just an atom or a constant, "
+              "an operator applied to one operand, repeated operands, very deep nesting.")
 for pid in pids:
     ex = ''
     items = studied.get(pid, []) + EXTRA_PENDING.get(pid, [])
